@@ -219,6 +219,62 @@ def gen_wide_history(rng):
     return h
 
 
+def gen_multi_true_history(rng):
+    """Variables WITHOUT the enforced exactly-one (new_var(items, false), the way solver enums are created) and variables over
+    user-supplied literals (new_var(lits, vals)) with 2-4 value literals made True at once -- by unit clauses, by assume, through an
+    asserted equality with another variable -- and some made False; value() is judged after every step, at every level."""
+    h = Hist()
+    h.tags.add("multi-true")
+    pool = list(range(0, 8))
+    size = rng.choice([3, 4, 4, 5, 6])
+    vals = rng.sample(pool, size)
+    h.add("N", 0, *vals)                               # variable 0: not enforced
+    doms = [list(vals)]
+    if rng.random() < 0.6:
+        other = list(vals) if rng.random() < 0.5 else list(set(rng.sample(vals, max(2, size - 1)) + rng.sample(pool, 2)))
+        rng.shuffle(other)
+        h.add("N", 0, *other)                          # variable 1: not enforced, overlapping
+        doms.append(other)
+    if rng.random() < 0.6:
+        ks = rng.sample(vals, rng.choice([2, 3, min(4, size)]))
+        lits = ["@0.%d" % k if rng.random() < 0.8 else "~@0.%d" % k for k in ks]
+        nv = rng.sample(pool, len(ks))
+        h.add("L", *(lits + ["|"] + nv))               # a variable over user-supplied literals
+        doms.append(nv)
+        h.tags.add("lit-var")
+    if rng.random() < 0.3:
+        h.add("N", 1, *rng.sample(pool, rng.choice([2, 3])))   # an enforced one, for contrast
+        doms.append(None)
+    neq = 0
+    if len(doms) > 1 and doms[1] is not None and rng.random() < 0.6 and set(doms[0]) & set(doms[1]):
+        h.add("Q", 0, 1)
+        h.add("C", "$%d" % neq)                        # b == c asserted: c's true values become b's
+        neq += 1
+        h.tags.add("asserted-equality")
+    target = 1 if (neq and rng.random() < 0.7) else 0
+    tv = rng.sample(doms[target], min(len(doms[target]), rng.choice([2, 2, 3, 4])))
+    fv = [k for k in doms[target] if k not in tv]
+    rng.shuffle(fv)
+    fv = fv[:rng.randint(0, len(fv))]
+    steps = [("T", k) for k in tv] + [("F", k) for k in fv]
+    rng.shuffle(steps)
+    level = 0
+    for kind, k in steps:
+        tok = ("@%d.%d" if kind == "T" else "~@%d.%d") % (target, k)
+        if level > 0 or rng.random() < 0.5:
+            h.add("A", tok)
+            level += 1
+        else:
+            h.add("C", tok)
+        if rng.random() < 0.15 and level == 0 and len(doms) > 1 and doms[1] is not None:
+            h.add("Q", rng.randrange(2), rng.randrange(2))
+            neq += 1
+    while level > 0:
+        h.add("O")
+        level -= 1
+    return h
+
+
 def corner_histories():
     out = []
 
